@@ -32,11 +32,13 @@ def excess(seq, expo, floor=1e-12):
     'Vanish like r^(N+1)' is a lower bound on the decay: a defect that decays faster (leading term absent by symmetry)
     satisfies it, so only ratios smaller than 2^(expo-2) count.  Ratios whose smaller member is below the rounding floor
     are not evaluated."""
-    ex = 0.0
+    # "vanishes like r^(N+1)" is a statement about r -> 0: the decisive pair is the one with the SMALLEST radii that is still
+    # above the rounding floor.  Pairs at larger radii are outside the asymptotic regime (Sun-Earth L1, section lift at
+    # h0 = 0.16: the defect changes sign near r = 0.4 and is accidentally small there; thorough tier, false alarm removed).
     for a, b in zip(seq, seq[1:]):
         if a > floor and b > floor:
-            ex = max(ex, max(0.0, (expo - 2.0) - math.log2(b / a)))
-    return ex
+            return max(0.0, (expo - 2.0) - math.log2(b / a))
+    return 0.0
 
 
 def hcm(cm, poly, clmo, p4):
